@@ -13,6 +13,7 @@ import (
 	"github.com/sarchlab/akita/v5/tracing"
 
 	"verif/props/emem"
+	"verif/props/tracelog"
 	"verif/sim/kit"
 )
 
@@ -337,3 +338,19 @@ func init() {
 		},
 	})
 }
+
+// TraceSim runs a configuration on a real simulation.Simulation with a trace
+// log attached and returns the log plus the final canonical archive (C03).
+func TraceSim(cfg *emem.Config, env *kit.Env) ([]string, []byte, bool) {
+	s := newSim(cfg, env, true)
+	l := &tracelog.Log{}
+	l.Attach(s.eng, s.asm.Ports)
+	s.guarded(func() { _ = s.eng.Run() })
+	arch, _ := s.archive(env, "det")
+	s.close()
+
+	return l.Lines, arch, s.capHit
+}
+
+// ArchiveDiff exposes archiveDiff.
+func ArchiveDiff(a, b []byte) string { return archiveDiff(a, b) }
